@@ -33,6 +33,10 @@ const shardSize = 400
 // writeCases writes the .v / .json pairs. header = Coq preamble (Require lines), typ = Coq type of a case,
 // eval = name of the evaluation function applied to the list.
 func writeCases(out, proj string, seed int64, header, typ, eval string, cases []caseRec) error {
+	return writeCasesSharded(out, proj, seed, header, typ, eval, cases, shardSize)
+}
+
+func writeCasesSharded(out, proj string, seed int64, header, typ, eval string, cases []caseRec, shardSize int) error {
 	if err := os.MkdirAll(out, 0o755); err != nil {
 		return err
 	}
